@@ -26,6 +26,14 @@ def mergePieces : List GoVal → List GoVal
 
 def fstr (ps : List GoVal) : GoVal := .arr (mergePieces ps)
 
+/-- a formatted string that may have no `%g` hole at all (numrange: `(,)`, `empty`, `[?,2)`): without a hole it is the plain
+string, with holes the piece list of `fstr` -/
+def fstrS (ps : List GoVal) : GoVal :=
+  match mergePieces ps with
+  | [] => .str []
+  | [.str s] => .str s
+  | m => .arr m
+
 def joinPieces (sep : GoVal) : List (List GoVal) → List GoVal
   | [] => []
   | [x] => x
